@@ -120,7 +120,8 @@ def coq_step(pid, scratch):
     res["assumptions"] = {"closed": closed, "axiom_blocks": axioms, "printed": n_print}
     if axioms:
         res["problems"].append("theorems depend on axioms: %s" % axioms)
-    if closed + len(axioms) < n_print or n_print < len([t for t in theorems if not t.endswith("_example")]):
+    n_thm = len(re.findall(r"^Theorem\s+([A-Za-z0-9_']+)", text, re.M))
+    if closed + len(axioms) < n_print or n_print < n_thm:
         res["problems"].append("Print Assumptions missing for some theorem (%d printed, %d closed, %d theorems)"
                                % (n_print, closed, len(theorems)))
     if not res["problems"]:
